@@ -11,7 +11,6 @@ use crate::util::{hash64, Ctx};
 const FOL: [Op; 4] = [Op::PushBack, Op::PushFront, Op::PopFront, Op::Clear];
 
 pub fn ctor<const N: usize, P: Pad>(ctx: &mut Ctx) {
-    ctx.panic_props = vec!["C12", "C11", "C01"];
     let _ = items_off::<N, P>();
     if ctx.mine_next() {
         empty_ctor_cases::<N, P>(ctx);
